@@ -95,12 +95,14 @@ CHECKS = {
              'bound, monotonicity, termination and (unbatched) pull-all; previous-batches is only exercised for '
              'overlap < size (its loop does not terminate otherwise, for any sequence).',
         ref='DESIGN.md section 4 C12'),
-    'C02': dict(engine='DTRender', technique='TLA+ small-step machine of the renderer (DTRender) checked by TLC; every behaviour (case x fault plan) exported and replayed into the real renderer',
+    'C02': dict(engine='DTRender', technique='TLA+ small-step machine of the renderer (DTRender) checked by TLC; every behaviour (case x fault plan) exported and replayed into the real renderer; every name search recorded from the real code (frame proxies; the cases and the repository\'s own tests) validated by TLC against the projection specification ObsLookup',
         text='The DTRender machine builds the namespace stack exactly as String.__call__ does and resolves names by '
              'top-down search with the auto-call rule; TLC explores every case (all 127 subsets of the seven sources, '
              'value kinds, client shapes, reference forms; every scoping block nested, also left by exceptions) and the '
-             'real renderer must return the same text and call the same values in the same order.',
-        note='Values are distinct markers; the machine is the oracle and is itself checked for stack discipline.',
+             'real renderer must return the same text and call the same values in the same order.  Second binding: in every '
+             'recorded search of every TemplateDict (C02 / C08 cases under fault plans, the 237 tests of the repository) the frame '
+             'that answered is the highest frame defining the name, KeyError exactly when none does (ObsLookup, per-trace verdicts).',
+        note='Values are distinct markers; the machine is the oracle and is itself checked for stack discipline; the probe order of the real search is recorded as drift only.',
         ref='DESIGN.md section 4 C02'),
     'C08': dict(engine='DTRender', technique='TLA+ small-step machine of the renderer (DTRender) checked by TLC; every behaviour (case x fault plan) exported and replayed into the real renderer',
         text='TLC checks StackDiscipline, ExitRestores, CallBalanced on the machine for every program x fault plan '
@@ -174,11 +176,12 @@ CHECKS = {
     'C20': dict(engine='DTTree',
         technique='TLA+ state machine of dtml-tree (DTTree) checked by TLC; lock-step product exploration of every exported '
                   'transition through the real tag; recorded random histories validated by TLC (ObsTree)',
-        text='exp (the set of expanded nodes) is the only state; TLC checks Closed, RowsAreChildrenOfExpanded, OneLinkEach, '
-             'ToggleOnly and the codec length arithmetic over all ordered trees of the tier and exports every transition; the '
+        text='exp (the set of expanded nodes) is the only state, the tag options assume_children / leaves / header / footer / single / '
+             'sort / reverse are parameters of the machine; TLC checks Closed, RowsAreChildrenOfExpanded, RowsOnce, OneLinkEach, '
+             'ToggleOnly and the codec length arithmetic over all ordered trees of the tier x option records and exports every transition; the '
              'harness drives the real tag along each (cookie + generated link) comparing rows, links and the decoded cookie; '
              'random larger trees with long / non-ASCII ids and histories up to 40 are validated by TLC; codec round trips.',
-        note='zlib/base64/json trusted; default tree options; ids without a double quote (they are not escaped in the anchors).',
+        note='zlib/base64/json trusted; branches / branches_expr / id / nowrap / prefix / urlparam are spellings the machine does not distinguish; ids without a double quote (they are not escaped in the anchors).',
         ref='DESIGN.md section 4 C20'),
     'C17': dict(engine='DTLife',
         technique='TLA+ life-cycle machine (DTLife) enumerated and simulated by TLC; every history executed in lock step on '
